@@ -42,10 +42,22 @@ def load_configs(chk):
         raise vlib.MachineryError("DetCfg.tla exported %d configurations, the space has %s" % (len(confs), n and n[0][1]))
     if sum(1 for c in confs if c["dist"] <= 1) != int(n[0][3]):
         raise vlib.MachineryError("DetCfg.tla: exported star differs from Star")
-    for a in ("ChooseGc", "ChooseOther", "Export"):
+    for a in ("ChooseGc", "ChooseOther", "Export", "AddFile", "ExportBatch"):
         if r.coverage.get(a, (0, 0))[1] == 0:
             raise vlib.MachineryError("DetCfg action %s never evaluated" % a)
-    return confs
+    # the batch compositions and the views (full text + projections) of every output kind come from the same run
+    batches = [json.loads(l[6:]) for l in r.printed if isinstance(l, str) and l.startswith("BATCH ")]
+    if len({b["id"] for b in batches}) != len(batches) or not batches:
+        raise vlib.MachineryError("DetCfg.tla exported %d batch compositions, %d distinct" % (len(batches), len({b["id"] for b in batches})))
+    views = [json.loads(l[6:]) for l in r.printed if isinstance(l, str) and l.startswith("VIEWS ")]
+    if len(views) != 1:
+        raise vlib.MachineryError("DetCfg.tla did not export its projections")
+    for kind, names in detobs.detproj.PROJECTIONS.items():
+        if sorted(views[0].get(kind, [])) != sorted(names):
+            raise vlib.MachineryError("projections of %s: the specification has %s, the binding computes %s" %
+                                      (kind, sorted(views[0].get(kind, [])), sorted(names)))
+    chk.extra["batch_compositions_in_model"] = len(batches)
+    return confs, batches
 
 
 def check_monitor(chk, tier):
@@ -62,29 +74,43 @@ def check_monitor(chk, tier):
                          "expected_violation": "NeverRejects"})
 
 
-def msg_signature(runner, key, dg1, dg2):
-    """'note-number' if the two message streams are equal up to the numbers of their notes, else 'text'."""
+def signature(runner, kind, view, key, dg1, dg2):
+    """What kind of difference the two kept contents show.  It identifies a recorded finding; the verdict itself is TLC's.
+    msg: 'note-number' if equal up to the numbers of the notes.  c (any view): 'bigint-number' if equal up to the numbers in
+    the names of the big-integer / raw-record-format constants (GA<n>, GB<n>, GRRFmt<n>).  ao: 'syme-codes' if only the
+    symbol-meaning section differs and its length is the same, otherwise 'sections'.  Everything else: 'text'."""
     import re
     p1, p2 = runner.kept.get((key, tuple(dg1))), runner.kept.get((key, tuple(dg2)))
     if not p1 or not p2:
-        return "text"
-    norm = [re.sub(rb"Note \d+", b"Note N", open(p, "rb").read()) for p in (p1, p2)]
-    return "note-number" if norm[0] == norm[1] else "text"
+        return "absent" if detobs.ABSENT in (list(dg1), list(dg2)) else "unknown"
+    a, b = (open(p, "rb").read() for p in (p1, p2))
+    if kind == "msg":
+        return "note-number" if re.sub(rb"Note \d+", b"Note N", a) == re.sub(rb"Note \d+", b"Note N", b) else "text"
+    if kind == "c":
+        pat = re.compile(rb"\b(GA|GB|GRRFmt)\d+")
+        return "bigint-number" if pat.sub(rb"\1N", a) == pat.sub(rb"\1N", b) else "text"
+    if kind == "ao" and view == "text":
+        sa, sb = detobs.detproj.ao_sections(a), detobs.detproj.ao_sections(b)
+        if [n for n, _ in sa] == [n for n, _ in sb] and all(x == y or (n == "syme" and len(x) == len(y)) for (n, x), (_, y) in zip(sa, sb)):
+            return "syme-codes"
+        return "sections"
+    return "text"
 
 
 def parse_input(s):
     parts = s.split("|")
     if len(parts) == 2 and parts[1] == "exit":
-        return {"file": parts[0], "kind": "exit", "scope": "group"}
-    return {"file": parts[0], "kind": parts[1], "scope": "in-batch" if len(parts) > 2 else "file"}
+        return {"file": parts[0], "kind": "exit", "view": "text", "scope": "group"}
+    kind, _, view = parts[1].partition(":")
+    return {"file": parts[0], "kind": kind, "view": view or "text", "scope": "in-batch" if len(parts) > 2 else "file"}
 
 
 def run(chk, tier):
     b = vlib.vbuild()
     wd = vlib.scratch("c08")
-    confs = load_configs(chk)
+    confs, batches = load_configs(chk)
     check_monitor(chk, tier)
-    groups = detobs.make_inputs(chk.seed, tier)
+    groups = detobs.make_inputs(chk.seed, tier, batches)
     pairs, used = detobs.plan(confs, groups, tier, chk.seed)
     runner = detobs.Runner(b, wd)
     runner.check_aslr_switch()
@@ -126,37 +152,55 @@ def run(chk, tier):
     for d in disagreements:
         pi = parse_input(d["input"])
         axes = sorted(d["axes"])
-        evs = dict((i, e) for i, e in by_input[d["input"]])
+        # the two observations: the first one of the input and the rejected one (configuration + the run it was made in)
+        ev_first = by_input[d["input"]][0][1]
+        ev_other = next(e for i, e in by_input[d["input"]] if i == d["cfg"] and e.get("run", "") == d.get("run", "")
+                        and e["digest"] != ev_first["digest"])
+        evs = {d["first"]: ev_first, d["cfg"]: ev_other}
+        g_other = gid_of.get(d.get("run")) or gid_of.get(pi["file"])
+        g_first = gid_of.get(ev_first.get("run")) or gid_of.get(pi["file"])
         base_key = "|".join(d["input"].split("|")[:2])
-        key = {"kind": pi["kind"], "axes": axes, "image": d["image"], "scope": pi["scope"], "file": pi["file"],
-               "cfg": d["cfg"], "first": d["first"]}
-        gk = gid_of.get(pi["file"])
+        if pi["kind"] != d["kind"] or pi["view"] != d["proj"]:
+            raise vlib.MachineryError("event fields of %s say %s/%s" % (d["input"], d["kind"], d["proj"]))
+        # view = "text" (the whole output) or the projection that differs; `renumbering` is the specification's statement
+        # (DetCfg!RenumberingMayExplain) whether the recorded renumbering of lexicals could explain the difference at all
+        key = {"kind": pi["kind"], "view": pi["view"], "renumbering": d["renumbering"], "axes": axes, "image": d["image"],
+               "scope": pi["scope"], "file": pi["file"], "cfg": d["cfg"], "first": d["first"]}
+        gk = g_other
+        if g_other is not None and g_other.comp is not None:
+            # a batch composition of the family: which kinds of file were compiled before this one in the invocation
+            names = [i.name for i in g_other.inputs]
+            upto = max((k for k, n in enumerate(names) if n == pi["file"]), default=len(names))
+            key["batch"] = g_other.comp["id"]
+            key["preceded_by"] = sorted({f["kind"] for f in g_other.comp["files"][:upto]})
         if gk is not None:
             if pi["kind"] == "exit":
                 key["origins"] = [i.origin for i in gk.inputs]
             else:
                 key["origin"] = next((i.origin for i in gk.inputs if i.name == pi["file"]), None)
-        if pi["kind"] == "msg":
+        if pi["kind"] != "exit":
             # what kind of difference (identifies the finding; the verdict itself is TLC's)
-            key["sig"] = msg_signature(runner, base_key, evs[d["first"]]["digest"], evs[d["cfg"]]["digest"])
-        ck = (pi["kind"], tuple(axes), pi["scope"])
-        ent = classes.setdefault(ck, {"kind": pi["kind"], "axes": axes, "scope": pi["scope"], "count": 0, "files": []})
+            key["sig"] = signature(runner, pi["kind"], pi["view"], base_key, evs[d["first"]]["digest"], evs[d["cfg"]]["digest"])
+        ck = (pi["kind"], pi["view"], tuple(axes), pi["scope"])
+        ent = classes.setdefault(ck, {"kind": pi["kind"], "view": pi["view"], "axes": axes, "scope": pi["scope"], "count": 0, "files": []})
         ent["count"] += 1
         if pi["file"] not in ent["files"] and len(ent["files"]) < 8:
             ent["files"].append(pi["file"])
-        g = gid_of.get(pi["file"])
+        g = g_other
         detail = {"input": d["input"], "first": d["first"], "other": d["cfg"], "axes": axes,
                   "digest_first": evs[d["first"]]["digest"], "digest_other": evs[d["cfg"]]["digest"],
-                  "run_first": runner.commands.get((g.gid, d["first"])) if g else None,
+                  "run_first": runner.commands.get((g_first.gid, d["first"])) if g_first else None,
                   "run_other": runner.commands.get((g.gid, d["cfg"])) if g else None,
                   "origin": next((i.origin for i in (g.inputs if g else []) if i.name == pi["file"]), None),
                   "difference": detobs.describe_difference(runner, base_key, evs[d["first"]]["digest"], evs[d["cfg"]]["digest"])
                   if pi["kind"] != "exit" else "exit status (file scope: 0 = every file succeeded; in-batch: the status itself) %s / %s" % (evs[d["first"]]["digest"][0], evs[d["cfg"]]["digest"][0])}
         if g:
             detail["sources"] = {i.name: i.text for i in g.inputs}
+            detail["files"] = [i.name for i in g.inputs]
             detail["options"] = g.opts
-        chk.violation("%s of %s differs between [%s] and [%s] (axes: %s%s)" %
-                      (pi["kind"], pi["file"], d["first"], d["cfg"], ",".join(axes), ", " + pi["scope"] if pi["scope"] != "file" else ""),
+        chk.violation("%s%s of %s differs between [%s] and [%s] (axes: %s%s)" %
+                      (pi["kind"], "" if pi["view"] == "text" else " (projection `%s')" % pi["view"], pi["file"], d["first"], d["cfg"],
+                       ",".join(axes), ", " + pi["scope"] if pi["scope"] != "file" else ""),
                       detail, key=key)
     # ---- evidence
     chk.extra["configurations_in_model"] = len(confs)
@@ -164,7 +208,13 @@ def run(chk, tier):
     chk.extra["compiler_invocations"] = runner.nruns
     chk.extra["observe_events"] = nev
     chk.extra["inputs_of_monitor"] = ninputs
-    chk.extra["source_files"] = sum(len(g.inputs) for g in groups)
+    chk.extra["source_files"] = len({i.name for g in groups for i in g.inputs})
+    chk.extra["batch_compositions_realised"] = sum(1 for g in groups if g.batch_only)
+    chk.extra["batch_kind_pairs_realised"] = len({(a["kind"], b["kind"]) for g in groups if g.comp
+                                                  for a, b in zip(g.comp["files"], g.comp["files"][1:])})
+    chk.extra["projections"] = detobs.detproj.PROJECTIONS
+    chk.extra["distinct_outputs_projected"] = runner.nproj
+    chk.extra["gcc_syntax_checks"] = runner.ngcc
     chk.extra["groups"] = {g.gid: {"class": g.cls, "opts": g.opts, "files": [i.name for i in g.inputs]} for g in groups[:40]}
     chk.extra["axis_values_realised"] = {a: sorted({json.dumps(c["cfg"][a], sort_keys=True) for c in used}) for a in ("gc", "aslr", "cwd", "env", "inv", "rep")}
     chk.extra["rejected_observations"] = len(disagreements)
@@ -217,7 +267,8 @@ def replay(d):
     wd = vlib.scratch("c08replay")
     r = vlib.tlc("DetCfg", "DetCfg", workers=4, timeout=300)
     by_id = {c["id"]: c for c in (json.loads(l[7:]) for l in r.printed if isinstance(l, str) and l.startswith("CONFIG "))}
-    g = detobs.Group("replay", [detobs.Input(n, t, "tiny", "replay") for n, t in det["sources"].items()], det.get("options", []))
+    g = detobs.Group("replay", [detobs.Input(n, det["sources"][n], "tiny", "replay") for n in det.get("files", list(det["sources"]))],
+                     det.get("options", []))
     runner = detobs.Runner(b, wd)
     by_input = detobs.run_all(runner, [(g, by_id[det["first"]]), (g, by_id[det["other"]])], 4)
     key = "|".join(det["input"].split("|")[:2])
